@@ -196,8 +196,9 @@ func cmdCheck(args []string) int {
 			defer wg.Done()
 			sem <- struct{}{}
 			defer func() { <-sem }()
-			jf := filepath.Join(outDir, "unit_"+sanitize.ReplaceAllString(u.Name, "_")+".json")
-			cmd := exec.Command(self, "unit", "-file", u.File, "-unit", u.Name, "-json", jf, "-smtdir", filepath.Join(outDir, "smt"), "-tier", *tier, "-known", knownFile)
+			// unit names repeat across packages (every directive has a setup_sweep): the report file is keyed by package and unit
+			jf := filepath.Join(outDir, "unit_"+sanitize.ReplaceAllString(unitPkg(u)+"_"+u.Name, "_")+".json")
+			cmd := exec.Command(self, "unit", "-file", u.File, "-unit", u.Name, "-json", jf, "-smtdir", filepath.Join(outDir, "smt", sanitize.ReplaceAllString(unitPkg(u), "_")), "-tier", *tier, "-known", knownFile)
 			cmd.Env = append(os.Environ(), "GOFLAGS=-mod=mod", "GOPROXY=off", "GOSUMDB=off", "GOTOOLCHAIN=local")
 			out, err := cmd.CombinedOutput()
 			var rep UnitReport
@@ -456,7 +457,7 @@ func cmdCheck(args []string) int {
 func unitNames(us []UnitHeader) []string {
 	var out []string
 	for _, u := range us {
-		out = append(out, u.Name)
+		out = append(out, strings.TrimPrefix(unitPkg(u), "./")+":"+u.Name)
 	}
 	return out
 }
